@@ -722,7 +722,7 @@ def gen_c16b(rng: random.Random) -> Dict[str, Any]:
 
 
 def _entry_key(task: str, e: Any) -> Any:
-    return (task, e.get("cron"), e.get("time"), jsonable(e.get("args", [])), jsonable(e.get("kwargs", {})))
+    return (task, e.get("cron"), e.get("time"), jsonable(e.get("args", [])), jsonable(e.get("kwargs", {})), e.get("cron_offset"))
 
 
 def run_c16b(spec: Dict[str, Any]) -> "tuple[List[Violation], Any]":
@@ -794,7 +794,7 @@ def run_c16b(spec: Dict[str, Any]) -> "tuple[List[Violation], Any]":
                 if listed is not None:
                     got: Counter = Counter()
                     for s in listed:
-                        got[repr((s.task_name, s.cron, s.time, jsonable(s.args), jsonable(s.kwargs)))] += 1
+                        got[repr((s.task_name, s.cron, s.time, jsonable(s.args), jsonable(s.kwargs), s.cron_offset))] += 1
                     want = expected_multiset()
                     obs["listed"].append(len(listed))
                     if got != want:
